@@ -69,7 +69,7 @@ func Props(c *Ctx) map[string]*Prop {
 	add(&Prop{ID: "C19",
 		Explanation: "Decides panic freedom of every exported downstream entry point (Fprint, Pos/End, Expand, Eval, Get/Set/Unset/Walk, Option.String, Match, Glob) for every path of the current source, with the AST shape facts they rely on checked on the producer side.",
 		Assumptions: []string{"ExecEnv values are built by NewExecEnv (len(Args) >= 1, non-nil maps)", "Config.Width >= 0", "regexp (RE2) terminates", "analysed build configuration: linux/amd64"},
-		Rules: []Rule{ruleLP1(),
+		Rules: []Rule{ruleAR6(), ruleLP1(),
 			pf1Rule("no index, slice, type-assertion or division site reachable from a downstream entry point can panic", 50,
 				func(c *Ctx) (map[*core.Func]bool, map[*core.Func]bool) { return c.downstreamScope(), nil }),
 			rulePF2(), rulePF3("printer", "interp", "ast", "pattern"), rulePF4("interp"), rulePF5(), ruleYY1("interp"), ruleEF7(), ruleFLD1(), ruleFLD2(), ruleCC1("interp"),
@@ -92,7 +92,7 @@ func Props(c *Ctx) map[string]*Prop {
 	add(&Prop{ID: "C11",
 		Explanation: "Decides the table side of C arithmetic: operator spellings the tokeniser recognises = the ops table (TB9a); each operator case computes `l S r` on signed 64-bit operands in that order, unary and truth tests as C defines them, constants parsed with base 0 (TB9b); the grammar's levels are C's precedence ladder with C's associativity (GR5) and the compiled tables are the grammar's (GR1, GR2); run-time faults are recovered into ArithExprError (PF5); whether side effects are executed inside reductions that C would skip (AR); and that the evaluation's outcome after a fault does not depend on the schedule: the parser stops consuming tokens (CC13) and the reported error has a deterministic winner (CC11). Numeric results are not computed.",
 		Assumptions: []string{"analysed build configuration linux/amd64 (int is 64-bit); the thorough tier re-checks the width under linux/386", "C's operator table (ISO C 6.5) is the external oracle"},
-		Rules:       []Rule{ruleLP1(), ruleGR1("interp"), ruleGR2("interp"), ruleGR5(), ruleTB9a("interp", "interp.(*lexer).lexOp", 15), ruleTB9b(), rulePF5(), ruleEF7(), ruleAR(), ruleAR3(), ruleCC13("interp"), ruleCC11("interp"), ruleCC9("interp"), ruleAR5(), ruleNG1("interp"), rulePU4()}})
+		Rules:       []Rule{ruleLP1(), ruleGR1("interp"), ruleGR2("interp"), ruleGR5(), ruleTB9a("interp", "interp.(*lexer).lexOp", 15), ruleTB9b(), rulePF5(), ruleEF7(), ruleAR(), ruleAR3(), ruleAR6(), ruleRV1(), ruleCC13("interp"), ruleCC11("interp"), ruleCC9("interp"), ruleAR5(), ruleNG1("interp"), rulePU4()}})
 	add(&Prop{ID: "C06",
 		Explanation: "Decides race freedom and goroutine lifetime structurally for every path: goroutine roots always close their channels (CC1); every access to goroutine-touched lexer fields after a spawn is preceded by a join on all paths (CC2); every field shared between the lexer-role and parser-role functions with a write is accessed only under the mutex, atomically or as a channel operation (CC3); sends can always be abandoned, the cancel channel is closed at most once, atomics are used consistently (CC4/CC5); the here-document hand-off cannot deadlock (CC6, GR4, with the token channel a rendezvous, CC9); cancellation is observed only at the token hand-over, never polled (CC10); the error slot has a deterministic winner (CC11), a lexer that failed by itself offers no further token (CC12) and a parser that fails inside a reduction stops consuming (CC13); the bail-out does not kill the process (PF4). Which of two concurrently raised errors is returned is a schedule-dependent value and is not decided.",
 		Assumptions: []string{"the Go memory model: lock, atomic, channel and go/join edges order accesses", "roles are computed on an over-approximating call graph (reference based + CHA for interface calls)"},
@@ -126,7 +126,7 @@ func Props(c *Ctx) map[string]*Prop {
 	add(&Prop{ID: "C13",
 		Explanation: "Decides the operator × state × nounset × special table of parameter expansion completely: for each of the 624 consistent valuations the outcome of every path of expandParam (value, word expanded, assignment, pattern removal, length, error kind) is extracted from the control-flow graph and compared with POSIX's table, including 'the word is expanded only when it is used' and 'assignment only under = / :=' (DT1); ${#p} counts runes (BR2); operator and special-parameter sets agree across packages (TB8, TB10, TB13); Set discipline (PU6/PU7); no panic (PF1). Field generation for $@ / $*, quoting of results and IFS joins are value-level and not decided.",
 		Assumptions: []string{"POSIX XCU 2.6.2 table frozen in the checker as oracle", "go.sh's documented Arith mode passes plain names through"},
-		Rules: []Rule{ruleDT1(), ruleBR2(), rulePU4(), ruleNG1("interp"), rulePP1(), ruleTB8(), ruleTB10(), ruleTB13(), rulePU6(), ruleFLD1(), ruleFLD2(), rulePF5(), ruleEF7(), ruleYY1("interp"), rulePF2(), ruleTB2(), ruleSP(),
+		Rules: []Rule{ruleAR6(), ruleDT1(), ruleBR2(), rulePU4(), ruleNG1("interp"), rulePP1(), ruleTB8(), ruleTB10(), ruleTB13(), rulePU6(), ruleFLD1(), ruleFLD2(), rulePF5(), ruleEF7(), ruleYY1("interp"), rulePF2(), ruleTB2(), ruleSP(),
 			pf1Rule("no index/slice/assertion in the expansion functions can panic", 20,
 				func(c *Ctx) (map[*core.Func]bool, map[*core.Func]bool) {
 					return c.scopeOf("interp.(*ExecEnv).Expand"), nil
